@@ -51,11 +51,13 @@ namespace occa {
     if (!modeMemoryPool) {
       return;
     }
-    modeMemoryPool->removeMemoryPoolRef(this);
+    // Whether this was the last reference is decided together with its
+    // removal: the object may be gone as soon as another thread removes its own
+    const bool needsFree = modeMemoryPool->removeMemoryPoolRef(this);
 #ifdef LIBOCCA_OCCA_VERIF
     verif::yield(verif::ptAfterRemoveMemoryPoolRef);
 #endif
-    if (modeMemoryPool->modeMemoryPool_t::needsFree()) {
+    if (needsFree) {
       delete modeMemoryPool;
       modeMemoryPool = NULL;
     }
